@@ -261,6 +261,41 @@ func (x *Exec) frontBuiltin(env *SpecEnv, st *State, name string, args []TV) (TV
 			return TV{VScalar{App(SStr, f, env.term(args[0]))}, types.Typ[types.String]}, true
 		}
 		return TV{}, false
+	case "urlpart":
+		// urlpart(s, "Path"): the string component of the URL parsed from s (the term the code reads)
+		if n, ok := litArg(1); ok && len(args) == 2 {
+			f := x.sym.Func("url.field."+n, []Sort{SStr}, SStr)
+			return TV{VScalar{App(SStr, f, env.term(args[0]))}, types.Typ[types.String]}, true
+		}
+		return TV{}, false
+	case "jwtverifies":
+		// jwtverifies(s): the token s is well formed and its signature verifies (what jwt.ParseWithClaims decides)
+		if len(args) == 1 {
+			return TV{VScalar{App(SBool, x.sym.Func("jwt.verifies", []Sort{SStr}, SBool), env.term(args[0]))}, boolT}, true
+		}
+		return TV{}, false
+	case "trimprefix":
+		// trimprefix(s, p): strings.TrimPrefix(s, p) (the same uninterpreted function the code sees)
+		if len(args) == 2 {
+			return TV{VScalar{App(SStr, "str.trimprefix", env.term(args[0]), env.term(args[1]))}, types.Typ[types.String]}, true
+		}
+		return TV{}, false
+	case "pure2s":
+		// pure2s("strings.TrimPrefix", a, b): the uninterpreted function the engine uses for a standard
+		// library function of two strings returning a string
+		if n, ok := litArg(0); ok && len(args) == 3 {
+			f := x.sym.Func("pure."+n, []Sort{SStr, SStr}, SStr)
+			return TV{VScalar{App(SStr, f, env.term(args[1]), env.term(args[2]))}, types.Typ[types.String]}, true
+		}
+		return TV{}, false
+	case "jsonmap2":
+		// jsonmap2(k1, v1, k2, v2): json.Marshal(map[string]string{k1: v1, k2: v2})
+		if len(args) == 4 {
+			m := App(SMapSS, "store", Term{"smap.empty", SMapSS}, env.term(args[0]), App(SOptS, "some", env.term(args[1])))
+			m = App(SMapSS, "store", m, env.term(args[2]), App(SOptS, "some", env.term(args[3])))
+			return TV{VScalar{App(SBytes, "tojson", m)}, nil}, true
+		}
+		return TV{}, false
 	case "jsonmap1":
 		// jsonmap1(k, v): json.Marshal(map[string]string{k: v})
 		if len(args) == 2 {
@@ -392,7 +427,7 @@ func (x *Exec) frontBuiltin(env *SpecEnv, st *State, name string, args []TV) (TV
 		// with earlier iterations, e.g. with a coroutine spawned there that still reads it)
 		if len(args) == 1 {
 			if p, ok := x.force(st, args[0].V).(VPtr); ok && p.Loc != nil {
-				return TV{VScalar{BoolLit(p.Loc.Obj >= x.iterObjBase && x.iterObjBase > 0)}, boolT}, true
+				return TV{VScalar{BoolLit(p.Loc.Obj >= x.iterObjBase && x.iterObjBase > 0 && !x.symObjs[p.Loc.Obj])}, boolT}, true
 			}
 			return TV{VScalar{TFalse}, boolT}, true
 		}
@@ -626,4 +661,36 @@ func init() {
 		return x.finish(st, fr, c, x.symbolicResult(st, c))
 	})
 	reg("(*"+tapi+".Cursor).String", "opaque", noop)
+	// golang-jwt: err == nil exactly when the token is well formed and its signature verifies under the key
+	// the key function returns (the uninterpreted predicate jwt.verifies of the token text; the spec builtin
+	// jwtverifies(s) is the same term). The claims object is filled from the token's payload in either case
+	// (the library decodes the claims before it checks the signature): arbitrary values.
+	reg("github.com/golang-jwt/jwt.ParseWithClaims", "jwt.ParseWithClaims: no error iff jwt.verifies(token); the claims receive arbitrary values whether or not the signature verifies; a failure is an arbitrary error value",
+		func(x *Exec, st *State, fr *Frame, c *callCtx) bool {
+			tup := c.ret.Type().(*types.Tuple)
+			ok := App(SBool, x.sym.Func("jwt.verifies", []Sort{SStr}, SBool), x.scalar(st, c.args[0]))
+			if cv, isI := x.force(st, c.args[1]).(VIface); isI && cv.Dyn != nil {
+				if p, isP := x.force(st, cv.Val).(VPtr); isP && p.Loc != nil {
+					if pt, isPT := cv.Dyn.Underlying().(*types.Pointer); isPT {
+						x.callCounter++
+						x.store(st, p.Loc, x.symbolic(st, pt.Elem(), fmt.Sprintf("jwt.claims!%d", x.callCounter)))
+					}
+				}
+			}
+			ts, fs := x.fork(st, ok, "jwt verifies")
+			if ts != nil {
+				x.callCounter++
+				tok := x.symbolic(ts, tup.At(0).Type(), fmt.Sprintf("jwt.token!%d", x.callCounter))
+				if tp, isP := tok.(VPtr); isP {
+					ts.assume(Not(tp.Nil))
+				}
+				x.completeCall(ts, c, VTuple{[]Value{tok, VIface{Nil: TTrue, Typ: errType()}}})
+			}
+			if fs != nil {
+				x.callCounter++
+				tok := x.symbolic(fs, tup.At(0).Type(), fmt.Sprintf("jwt.token!%d", x.callCounter))
+				x.completeCall(fs, c, VTuple{[]Value{tok, x.freshErr(fs, "jwt.err", TFalse)}})
+			}
+			return true
+		})
 }
